@@ -236,6 +236,38 @@ func (r *nodeRun) c08Checks(c *cluster, obs *vnode, rounds []string) {
 		}
 		rep.closeReplica()
 	}
+	// (2a) the id of a board message is no input of the round state (ids are assigned by the board; a Kafka export carries
+	// none): a replica shown the log with ONE id on every message, in one poll and message by message, agrees with the live node
+	for k := 0; k < 2; k++ {
+		rep, err := c.replica(j.idx, fmt.Sprintf("sameid%d", k), nil)
+		if err != nil {
+			break
+		}
+		rep.stg.rewrite = func(m storage.Message) storage.Message {
+			m.ID = "one-id-for-every-message"
+			return m
+		}
+		if k == 0 {
+			for {
+				evs, err := c.pollOnce(rep, 0)
+				if err != nil || len(evs) == 0 {
+					break
+				}
+			}
+		} else {
+			for {
+				evs, err := c.pollOnce(rep, 1)
+				if err != nil || len(evs) == 0 {
+					break
+				}
+			}
+		}
+		st.C08Compared++
+		if p := publicProj(rep, ""); p != live {
+			r.mon(fmt.Sprintf("C08 replay_eq_live: %s rebuilt by replaying the %d messages, all shown with the same id (%s), differs from the live node %s", j.name, logLen, []string{"whole log in one poll", "one message per poll"}[k], firstDiff(live, p)))
+		}
+		rep.closeReplica()
+	}
 	// (2b) the node's OWN loop: everywhere else the harness plays the poller (read the offset, read the board, hand the
 	// messages over one by one, save the offset after each); here a fresh process runs the real Poll() until it has consumed
 	// the log (its ticker fires once a second) and must end where the live node is
